@@ -44,8 +44,11 @@ NatW(w) == IF w = 2 THEN 2 ELSE 4
 NatH(w) == IF w = 1 THEN 3 ELSE 2
 MaxStrip == 3
 
-VARIABLES T, cv, cdis, wdis, scr, started, last, ulast, same, wdt, nxt, free, ok, taint, dc, rs, out
-vars == <<T, cv, cdis, wdis, scr, started, last, ulast, same, wdt, nxt, free, ok, taint, dc, rs, out>>
+\* held: the application still holds a reference to the canvas object it passed to draw_screen last
+\* (object LIFETIME: urwid keeps a canvas it painted, nobody but the caller keeps a frame that was dropped
+\* or that failed - once released, that object is dead and its address may be handed to the next canvas)
+VARIABLES T, cv, cdis, wdis, scr, started, last, ulast, same, wdt, nxt, free, ok, taint, dc, rs, held, out
+vars == <<T, cv, cdis, wdis, scr, started, last, ulast, same, wdt, nxt, free, ok, taint, dc, rs, held, out>>
 
 (* ------------------------------------------------------------- layouts *)
 
@@ -237,7 +240,7 @@ Init ==
                                            z |-> IF StyleOf(w) = "kitty" THEN ZSeq[w] ELSE 0]]
                  /\ nxt = IF Style3 = "kitty" THEN -2 ELSE 2
   /\ free = {}
-  /\ ok = FALSE /\ taint = FALSE /\ dc = FALSE /\ rs = FALSE
+  /\ ok = FALSE /\ taint = FALSE /\ dc = FALSE /\ rs = FALSE /\ held = FALSE
   /\ out = [op |-> "init", arg |-> NoneP, toks |-> <<>>, res |-> ""]
 
 ClearImages(n) == IF Supported(Ident) THEN [i \in 1..n |-> KTok(XDelAll)] ELSE <<>>
@@ -250,7 +253,7 @@ Start ==
   /\ cdis' = BumpN(cdis, 1)
   /\ ok' = FALSE
   /\ out' = [op |-> "start", arg |-> NoneP, toks |-> ClearImages(1), res |-> ""]
-  /\ UNCHANGED <<cv, wdis, scr, last, ulast, same, wdt, nxt, free, taint, dc, rs>>
+  /\ UNCHANGED <<cv, wdis, scr, last, ulast, same, wdt, nxt, free, taint, dc, rs, held>>
 
 Stop ==
   /\ started /\ ~dc /\ ~rs
@@ -261,7 +264,7 @@ Stop ==
   /\ ok' = FALSE
   /\ out' = [op |-> "stop", arg |-> NoneP, toks |-> ClearImages(2), res |-> ""]
   /\ taint' = FALSE
-  /\ UNCHANGED <<cv, wdis, last, ulast, same, wdt, nxt, free, dc, rs>>
+  /\ UNCHANGED <<cv, wdis, last, ulast, same, wdt, nxt, free, dc, rs, held>>
 
 Clear ==
   /\ started /\ ~dc /\ ~rs
@@ -271,7 +274,7 @@ Clear ==
   /\ ok' = FALSE
   /\ out' = [op |-> "clear", arg |-> NoneP, toks |-> ClearImages(1), res |-> ""]
   /\ taint' = FALSE
-  /\ UNCHANGED <<cv, wdis, started, last, ulast, same, wdt, nxt, free, dc, rs>>
+  /\ UNCHANGED <<cv, wdis, started, last, ulast, same, wdt, nxt, free, dc, rs, held>>
 
 \* (values used more than once are bound through singleton sets: TLC evaluates them once)
 DoRedraw(p, bad, inv) ==
@@ -294,6 +297,7 @@ DoRedraw(p, bad, inv) ==
      /\ taint' = (taint \/ bad)
      /\ ok' = (~bad /\ ~lost /\ ~taint)
      /\ dc' = FALSE
+     /\ held' = TRUE   \* a NEW canvas object, whatever became of the earlier ones
      /\ out' = [op |-> IF bad THEN "bad" ELSE IF lost THEN "lost" ELSE "redraw", arg |-> [p EXCEPT !.d = p.d + 10 * inv], toks |-> toks,
                 res |-> IF bad THEN "ValueError" ELSE ""]
      /\ UNCHANGED <<started, nxt, rs>>
@@ -311,6 +315,7 @@ RedrawBad == WithBad /\ ~dc /\ ~rs /\ \E p \in Params : started /\ Usable(p) /\ 
 \* its cache belongs to that canvas, otherwise draws the rows that differ from its cache
 RedrawSame ==
   /\ started /\ last # NoneP /\ ~dc /\ ~rs
+  /\ held   \* the canvas object must still exist: the caller passes it again
   /\ \E wd \in {WD} :
      \E quick \in {scr # <<>> /\ same} :
      \E sig \in {SigOf(wd, last, Dis)} :
@@ -323,7 +328,7 @@ RedrawSame ==
         /\ free' = free \cup Freed(wdt, refd)
         /\ ok' = IF quick THEN ok ELSE ~taint
         /\ out' = [op |-> "same", arg |-> last, toks |-> toks, res |-> ""]
-  /\ UNCHANGED <<cv, cdis, wdis, started, last, nxt, taint, dc, rs>>
+  /\ UNCHANGED <<cv, cdis, wdis, started, last, nxt, taint, dc, rs, held>>
 
 \* cls: the widget is an instance of UrwidImage itself (0), of a subclass (1) or of a subclass of a
 \* subclass (2): the allocator is ONE counter and ONE free pool shared by all of them
@@ -343,7 +348,7 @@ NewWidget ==
                   /\ nxt' = o.next /\ free' = o.free
                   /\ out' = [op |-> "new", arg |-> Par("w", w, o.z, cls, uz), toks |-> <<>>, res |-> ""]
     /\ wdis' = [wdis EXCEPT ![w] = 0]
-    /\ UNCHANGED <<T, cv, cdis, scr, started, last, ulast, same, ok, taint, dc, rs>>
+    /\ UNCHANGED <<T, cv, cdis, scr, started, last, ulast, same, ok, taint, dc, rs, held>>
 
 DropWidget ==
   Dyn /\ ~dc /\ ~rs /\ \E w \in Slots :
@@ -353,7 +358,7 @@ DropWidget ==
          /\ wdt' = Reaped(wt, refd)
          /\ free' = free \cup Freed(wt, refd)
     /\ out' = [op |-> "drop", arg |-> Par("w", w, 0, 0, 0), toks |-> <<>>, res |-> ""]
-    /\ UNCHANGED <<T, cv, cdis, wdis, scr, started, last, ulast, same, nxt, ok, taint, dc, rs>>
+    /\ UNCHANGED <<T, cv, cdis, wdis, scr, started, last, ulast, same, nxt, ok, taint, dc, rs, held>>
 
 \* Direct user calls between redraws: screen.clear_images(now=...) deletes every image and changes the
 \* canvas-class disguise; screen.clear_images(widget, now=...) deletes the images of one kitty widget
@@ -371,7 +376,7 @@ ClearImagesAll ==
        /\ cdis' = BumpN(cdis, 1)
        /\ out' = [op |-> "climg", arg |-> Par("c", 0, IF now THEN 1 ELSE 0, 0, 0), toks |-> ClearImages(1), res |-> ""]
   /\ dc' = TRUE /\ ok' = FALSE
-  /\ UNCHANGED <<cv, wdis, scr, started, last, ulast, same, wdt, nxt, free, taint, rs>>
+  /\ UNCHANGED <<cv, wdis, scr, started, last, ulast, same, wdt, nxt, free, taint, rs, held>>
 
 ClearImagesOf ==
   /\ WithDC /\ started /\ ~dc /\ ~rs /\ last # NoneP /\ ~TopLeafOf[last] /\ Supported(Ident)
@@ -382,7 +387,7 @@ ClearImagesOf ==
        /\ out' = [op |-> "climg", arg |-> Par("c", w, IF now THEN 1 ELSE 0, 0, 0),
                   toks |-> <<KTok(XDelZ(wdt[w].z))>>, res |-> ""]
   /\ dc' = TRUE /\ ok' = FALSE
-  /\ UNCHANGED <<cv, cdis, scr, started, last, ulast, same, wdt, nxt, free, taint, rs>>
+  /\ UNCHANGED <<cv, cdis, scr, started, last, ulast, same, wdt, nxt, free, taint, rs, held>>
 
 \* Environment: the terminal was resized (SIGWINCH).  urwid sets _resized and drops its line cache; every
 \* draw_screen until the resize is handled (get_input / parse_input resets the flag) returns before
@@ -394,14 +399,28 @@ Sigwinch ==
   /\ WithWinch /\ started /\ ~dc /\ ~rs /\ last # NoneP
   /\ rs' = TRUE /\ scr' = <<>> /\ ok' = FALSE
   /\ out' = [op |-> "winch", arg |-> NoneP, toks |-> <<>>, res |-> ""]
-  /\ UNCHANGED <<T, cv, cdis, wdis, started, last, ulast, same, wdt, nxt, free, taint, dc>>
+  /\ UNCHANGED <<T, cv, cdis, wdis, started, last, ulast, same, wdt, nxt, free, taint, dc, held>>
 
 ResizeHandled ==
   /\ rs /\ rs' = FALSE
   /\ out' = [op |-> "handled", arg |-> NoneP, toks |-> <<>>, res |-> ""]
-  /\ UNCHANGED <<T, cv, cdis, wdis, scr, started, last, ulast, same, wdt, nxt, free, ok, taint, dc>>
+  /\ UNCHANGED <<T, cv, cdis, wdis, scr, started, last, ulast, same, wdt, nxt, free, ok, taint, dc, held>>
 
-Next == Sigwinch \/ ResizeHandled \/ ClearImagesAll \/ ClearImagesOf \/ Start \/ Stop \/ Clear \/ Redraw \/ RedrawSame \/ RedrawBad \/ NewWidget \/ DropWidget
+\* Object lifetime of the screen canvases.  The application drops its reference to the canvas it passed to
+\* draw_screen last (urwid's MainLoop does so on return from every draw_screen).  urwid itself keeps the canvas
+\* it PAINTED last; a frame it dropped (resize pending) or that failed is kept by nobody: the object dies and
+\* its address may be given to the very next canvas.  The design does not care: the next Redraw passes a NEW
+\* canvas and the bookkeeping runs for it (TracksLastCanvas) - "the same canvas as last time" can only be said
+\* of an object that still exists (RedrawSame requires held).  Nothing is written, nothing else changes.
+\* Explored where it ends the object's life: the canvas passed last was not painted (~same: a dropped or a
+\* failing frame; a painted canvas lives on in urwid's _screen_buf_canvas whoever else lets go of it).
+ReleaseCanvas ==
+  /\ (WithWinch \/ WithBad) /\ started /\ ~dc /\ last # NoneP /\ held /\ ~same
+  /\ held' = FALSE
+  /\ out' = [op |-> "release", arg |-> NoneP, toks |-> <<>>, res |-> ""]
+  /\ UNCHANGED <<T, cv, cdis, wdis, scr, started, last, ulast, same, wdt, nxt, free, ok, taint, dc, rs>>
+
+Next == ReleaseCanvas \/ Sigwinch \/ ResizeHandled \/ ClearImagesAll \/ ClearImagesOf \/ Start \/ Stop \/ Clear \/ Redraw \/ RedrawSame \/ RedrawBad \/ NewWidget \/ DropWidget
 Spec == Init /\ [][Next]_vars
 
 (* ---------------------------------------------------------- properties *)
@@ -435,16 +454,21 @@ AllocatorSound ==
 \* no placement carries a z-index that no live widget holds (a freed index is clean when reused)
 NoOrphanZ == \A i \in DOMAIN T.pl : T.pl[i].proto = "kitty" => \E w \in LiveKitty : wdt[w].z = T.pl[i].z
 
+\* the screen's bookkeeping always describes the canvas passed to draw_screen LAST - also when that frame was
+\* dropped or failed, and whether or not any earlier canvas object still exists (canvas lifetime)
+TracksLastCanvas ==
+  Supported(Ident) /\ last # NoneP => ResetGen(cv) = ResetGen(ViewsOf(Ident, WD, PiecesOf[last]))
+
 (* ------------------------------------------------------------ TLC plumbing *)
 
 PlSet == Shown(T, GFX)
-View == <<PlSet, cv, cdis, wdis, scr, started, last, ulast, same, wdt, nxt, free, ok, taint, dc, rs>>
+View == <<PlSet, cv, cdis, wdis, scr, started, last, ulast, same, wdt, nxt, free, ok, taint, dc, rs, held>>
 
 \* Edge dump for spec -> code replay (MC_UrwidScreen_edges.cfg): explored under a COARSE view
 \* (layout drawn last x started x urwid has a line cache x liveness of the widgets), so that every
 \* pair (layout on screen, next operation / next layout) is generated once.  The replay needs the
 \* operation sequences only - each real step is judged by Trace_UrwidScreen, not by the edge.
-CoarseObs == [last |-> last, started |-> started, cache |-> scr # <<>>, taint |-> taint, dc |-> dc, rs |-> rs, same |-> same,
+CoarseObs == [last |-> last, started |-> started, cache |-> scr # <<>>, taint |-> taint, dc |-> dc, rs |-> rs, same |-> same, held |-> held,
               live |-> [w \in Slots |-> IF ~wdt[w].alive THEN 0 ELSE IF wdt[w].dropped THEN 2 ELSE 1]]
 CoarseView == CoarseObs
 Dump == PrintT(<<"EDGE", ToJson([from |-> CoarseObs, op |-> [op |-> out'.op, arg |-> out'.arg, res |-> out'.res],
@@ -452,9 +476,16 @@ Dump == PrintT(<<"EDGE", ToJson([from |-> CoarseObs, op |-> [op |-> out'.op, arg
 \* in the edge dump a direct clear is followed by a NEW canvas of the SAME layout (image lines
 \* textually unchanged: the case in which only the disguise can make urwid send them again)
 \* after a dropped frame only the handling of the resize, then the painting of the SAME canvas
+\* canvas lifetime: instead of painting the SAME canvas after a dropped frame, the application may have
+\* released it; the next frame is then a NEW canvas (whose address may be the dead one's).  RelFams bounds
+\* the layouts between which this is replayed (quick: Q; thorough: RelFamsT by cfg override).
+RelFams == {"Q"}
+RelFamsT == {"O", "L", "F"}
 DumpL == /\ (dc /\ out'.op = "redraw" => out'.arg = last)
          /\ (rs /\ ~same => out'.op = "handled")
-         /\ (~rs /\ ~same /\ last # NoneP /\ ~taint => out'.op = "same")
+         /\ (~rs /\ ~same /\ last # NoneP /\ ~taint /\ held => out'.op = "same" \/ (out'.op = "release" /\ last.f \in RelFams))
+         /\ (out'.op = "release" => ~rs /\ ~same)
+         /\ (~held /\ last # NoneP => out'.op = "redraw" /\ out'.arg.f \in RelFams)
          /\ Dump
 \* the layouts themselves, printed once: the driver builds the real urwid trees from these
 LayoutTable == \A p \in Params : PrintT(<<"LAYOUT", ToJson([p |-> p, lay |-> Lay(p)])>>)
